@@ -204,7 +204,12 @@ fn exec_t<T: Sc, F: Factory<T>>(sc: &Scenario) -> RunReport {
                         // (B) same as a fresh problem at alpha_hat (missed restore would show here)
                         match guarded(|| fresh::<T, F>(w, &params, false, false)) {
                             Ok(Ok(fr)) => {
-                                if fr.snap.resid != sn.resid || fr.snap.coeff != sn.coeff {
+                                // the reference is sequential; the state was computed by the flavour the fit ran on
+                                let verdict = agree_with_reference::<T>(w, &fr.snap, sn, !f.was_parallel);
+                                if verdict == Agree::Rounding || verdict == Agree::Gated {
+                                    rep.probe("final_state_equal_up_to_rounding_across_flavours");
+                                }
+                                if verdict == Agree::No {
                                     rep.violate(sc, "INCOHERENT_FINAL_STATE", "Fit/state", "coefficients/residuals of the returned problem are not those of a fresh problem at the returned parameters".into());
                                 }
                             }
